@@ -19,6 +19,7 @@ def play(spec):
         regs.append(R(tuple(regs[b] for b in bs)))
     rebased = set()
     n = 0
+    found_known = []
 
     def observe(rmap=None):
         out = []
@@ -47,7 +48,11 @@ def play(spec):
             observe()
             continue
         r = regs[st[1] % len(regs)]
-        if op == 'rebase':
+        if op == 'rebase-same':
+            r.__bases__ = tuple(r.__bases__)
+            rebased.add(regs.index(r))
+            op = 'rebase'
+        elif op == 'rebase':
             idx = regs.index(r)
             cand = regs[:idx]
             new = tuple(cand[i % len(cand)] for i in dict.fromkeys(st[2])) if cand else ()
@@ -72,11 +77,16 @@ def play(spec):
                 and any(regs.index(anc) in rebased for anc in ancestors(regs[w]) if any(anc is q for q in regs))
                 and not (op == 'rebase' and regs.index(r) == w)
                 for w in wrong)
-            return [('chain:' + '+'.join(kinds) + ':' + op,
-                     'after step %d (%s on registry %d) registries %r answer %s differently from registries freshly built with '
-                     'the current __bases__ (%s flavour)' % (si, op, regs.index(r), wrong, kinds, R.__name__),
-                     KNOWN if known else None)], n
-    return [], n
+            item = ('chain:' + '+'.join(kinds) + ':' + op,
+                    'after step %d (%s on registry %d) registries %r answer %s differently from registries freshly built with '
+                    'the current __bases__ (%s flavour)' % (si, op, regs.index(r), wrong, kinds, R.__name__),
+                    KNOWN if known else None)
+            if not known:
+                return [item], n
+            # the recorded defect: keep playing -- what happens AFTER it (the stale registry's own __bases__ is assigned,
+            # registrations change above it) is still under the unrestricted check
+            found_known = found_known or [item]
+    return found_known, n
 
 
 def random_spec(rnd):
@@ -93,6 +103,25 @@ def random_spec(rnd):
     return (shape, rnd.choice('AV'), tuple(reg_bases), tuple(steps))
 
 
+def chain_spec(rnd):
+    """a chain >= 3 deep whose upper levels are re-based before lower ones (and registries created below afterwards)"""
+    n = rnd.randint(2, 3)
+    shape = common.random_shape(rnd, n, 1)
+    depth = rnd.randint(3, 5)
+    reg_bases = [(), ()] + [(k,) for k in range(1, depth)]       # two roots, then a chain under root 1
+    steps = [('reg', rnd.choice([0, 1]), (rnd.randrange(4),), rnd.randrange(3)) for _ in range(rnd.randint(1, 2))]
+    order = sorted(rnd.sample(range(2, depth + 1), rnd.randint(2, min(3, depth - 1))))
+    for k in order:
+        steps.append(('rebase', k, (rnd.choice([0, 1, k - 1]),) if k > 2 else (rnd.choice([0, 1]),), 0))
+        if rnd.random() < 0.5:
+            steps.append((rnd.choice(['reg', 'sub', 'warm']), rnd.choice([0, 1]), (rnd.randrange(4),), rnd.randrange(3)))
+    # re-assign a lower registry's own bases to what they already are (must refresh it)
+    low = rnd.randint(3, depth)
+    steps.append(('rebase-same', low, (), 0))
+    steps.append(('reg', rnd.choice([0, 1]), (rnd.randrange(4),), rnd.randrange(3)))
+    return (shape, rnd.choice('AV'), tuple(reg_bases), tuple(steps))
+
+
 def replay(spec):
     bad, _ = play(spec)
     for sig, what, known in bad:
@@ -101,7 +130,7 @@ def replay(spec):
 
 
 def run(ctx):
-    ctx.rule = ('random registry DAGs (<=4 registries, <=2 bases each, either flavour) with histories of <=7 __bases__ '
+    ctx.rule = ('random registry DAGs (<=4 registries, <=2 bases each, either flavour; every third: chains 3..5 deep re-based from the top down, then a lower registry re-assigned its own bases) with histories of <=7 __bases__ '
                 'reassignments at any level, registrations/subscriptions in any member and warm-up lookups; after every step '
                 'lookup/lookupAll/subscriptions of every registry compared with registries freshly built with the current bases; '
                 'distinct = histories')
@@ -110,7 +139,7 @@ def run(ctx):
     for t in range(trials):
         if ctx.out_of_time() or ctx.too_many():
             return
-        spec = random_spec(ctx.rnd)
+        spec = random_spec(ctx.rnd) if t % 3 else chain_spec(ctx.rnd)
         bad, n = play(spec)
         ctx.evaluations += n
         ctx.distinct.add(spec)
